@@ -113,7 +113,7 @@ func TestC09Aggregate(t *testing.T) {
 			// subset of size t (sometimes more)
 			perm := rapid.Permutation(seq(1, n)).Draw(rt, "subset")
 			size := thr
-			if rapid.IntRange(0, 4).Draw(rt, "superset") == 0 {
+			if rapid.IntRange(0, 2).Draw(rt, "superset") == 0 {
 				size = rapid.IntRange(thr, n).Draw(rt, "size")
 			}
 			subset := append([]int{}, perm[:size]...)
@@ -140,21 +140,15 @@ func TestC09Aggregate(t *testing.T) {
 					}
 					parts[j] = parts[(j+1)%len(parts)]
 				case "other_content":
-					if len(parts) != thr {
-						rt.Skip("needs exactly t partials")
-					}
 					s, _ := specsign.Sign(bn, shares[parts[j].ShareIdx], other)
 					parts[j] = core.ParSignedData{SignedData: s, ShareIdx: parts[j].ShareIdx}
 				case "wrong_share_key":
-					if len(parts) != thr {
-						rt.Skip("needs exactly t partials")
-					}
 					wrong := parts[j].ShareIdx%n + 1
 					s, _ := specsign.Sign(bn, shares[wrong], v)
 					parts[j] = core.ParSignedData{SignedData: s, ShareIdx: parts[j].ShareIdx}
 				case "wrong_index":
-					if len(parts) != thr || thr == n {
-						rt.Skip("needs exactly t < n partials")
+					if len(parts) == n {
+						rt.Skip("needs an unused share index")
 					}
 					used := map[int]bool{}
 					for _, p := range parts {
@@ -167,16 +161,10 @@ func TestC09Aggregate(t *testing.T) {
 						}
 					}
 				case "other_message":
-					if len(parts) != thr {
-						rt.Skip("needs exactly t partials")
-					}
 					s, _ := specsign.Sign(bn, shares[parts[j].ShareIdx], other)
 					moved, _ := v.SetSignature(s.Signature())
 					parts[j] = core.ParSignedData{SignedData: moved, ShareIdx: parts[j].ShareIdx}
 				case "truncated":
-					if len(parts) != thr {
-						rt.Skip("needs exactly t partials")
-					}
 					bad, err := parts[j].SetSignature(parts[j].Signature()[:95])
 					if err != nil {
 						rt.Skip("type refuses a short signature")
@@ -188,9 +176,6 @@ func TestC09Aggregate(t *testing.T) {
 					}
 					parts[j] = core.ParSignedData{SignedData: bad, ShareIdx: parts[j].ShareIdx}
 				case "overlong":
-					if len(parts) != thr {
-						rt.Skip("needs exactly t partials")
-					}
 					bad, err := parts[j].SetSignature(append(append(core.Signature{}, parts[j].Signature()...), 0))
 					if err != nil {
 						rt.Skip("type refuses a long signature")
@@ -200,9 +185,6 @@ func TestC09Aggregate(t *testing.T) {
 					}
 					parts[j] = core.ParSignedData{SignedData: bad, ShareIdx: parts[j].ShareIdx}
 				case "zero_sig":
-					if len(parts) != thr {
-						rt.Skip("needs exactly t partials")
-					}
 					bad, _ := parts[j].SetSignature(make(core.Signature, 96))
 					parts[j] = core.ParSignedData{SignedData: bad, ShareIdx: parts[j].ShareIdx}
 				}
